@@ -2,7 +2,7 @@
    Statements only; proofs are in Proofs/RngProofs.v. *)
 From Coq Require Import List NArith ZArith Bool Floats.SpecFloat.
 From Abasic Require Import Model.Bytes Model.Num Model.Token Model.Data Model.Lexer Gen.Tables
-     Model.State Model.Eval Model.Interp Proofs.RngProofs.
+     Model.State Model.Eval Model.Interp Model.RustInt Gen.RandomRs Proofs.RngProofs Proofs.RngTie.
 Import ListNotations.
 Open Scope N_scope.
 
@@ -52,6 +52,41 @@ Theorem C18_seq_range : forall seed args,
                    end) (rnd_seq seed args).
 Proof. exact rnd_seq_range. Qed.
 
+(* THE TIE TO random.rs BY TRANSLATION.  Gen/RandomRs.v holds every method of
+   `impl Rng` as translated from the source text on this run (checked u64
+   arithmetic: an overflow or a remainder by zero is None / RsPanic).  The
+   translated constructor is the model's for EVERY seed; the translated step,
+   on every reduced state, does not overflow and is the model's LCG step with
+   the model's quotient; and a whole session of the translated code — seed,
+   then any list of RND arguments — never panics and yields exactly the
+   sequence the theorems above speak about. *)
+Theorem C18_code_new : forall seed, rs_new seed = Some (rng_new seed).
+Proof. exact rs_new_is_model. Qed.
+Theorem C18_code_step : forall s, s < MODULUS -> rs_random s = Some (lcg s, latest_random (lcg s)).
+Proof. exact rs_random_is_model. Qed.
+Theorem C18_code_rnd : forall x st, rng st < MODULUS ->
+  rs_rnd x (rng st) <> RsPanic /\
+  (forall e, rs_rnd x (rng st) = RsErr e -> e = "Unimplemented"%string) /\
+  fst (rng_rnd x st) = rs_to_res (rs_rnd x (rng st)) /\
+  rng (snd (rng_rnd x st)) = rs_field (rng st) (rs_rnd x (rng st)) /\
+  rs_field (rng st) (rs_rnd x (rng st)) < MODULUS.
+Proof. exact rs_rnd_is_model. Qed.
+Theorem C18_code_session : forall seed args,
+  exists outs, rs_session seed args = Some outs /\ ~ In RsPanic outs /\
+               map rs_to_res outs = rnd_seq seed args /\
+               forall st0, map rs_to_res outs = rnd_seq_from st0 seed args.
+Proof. exact rs_session_is_model. Qed.
+Check C18_code_session : forall seed args,
+  exists outs, rs_session seed args = Some outs /\ ~ In RsPanic outs /\
+               map rs_to_res outs = rnd_seq seed args /\
+               forall st0, map rs_to_res outs = rnd_seq_from st0 seed args.
+
+(* non-vacuity: a u64::MAX seed, RND(0) then two draws, evaluated on the translated code *)
+Example C18_code_session_example :
+  exists a b c, rs_session 18446744073709551615 [f64_zero; f64_one; f64_one] = Some [RsOk 8589934591 a; RsOk 1012239698 b; RsOk 806866057 c].
+Proof. vm_compute. do 3 eexists. reflexivity. Qed.
+
+
 Print Assumptions C18_documented.
 Print Assumptions C18_seed.
 Print Assumptions C18_mod.
@@ -61,3 +96,7 @@ Print Assumptions C18_exact.
 Print Assumptions C18_range.
 Print Assumptions C18_deterministic.
 Print Assumptions C18_seq_range.
+Print Assumptions C18_code_new.
+Print Assumptions C18_code_step.
+Print Assumptions C18_code_rnd.
+Print Assumptions C18_code_session.
